@@ -248,11 +248,21 @@ def impl_builtin(case):
     X = np.array(case["X"], dtype=float)
     n, m = case["n"], case["m"]
     try:
-        det = SBS(_mk_score(case["score"]), threshold_scale=case["scale"], level=case["level"], min_segment_length=m,
-                  max_interval_length=case["mx"], growth_factor=case["g"]).fit(core.wrap_container(case, X))
-        # ndarray or DataFrame; the fitted detector may have been used on other data with the same index before
+        scale = case["scale"]
+        if scale is not None:  # aim the fitted threshold just beside one of the interval scores
+            probe = SBS(_mk_score(case["score"]), threshold_scale=0.0, min_segment_length=m, max_interval_length=case["mx"],
+                        growth_factor=case["g"])
+            _, nf = core.fit_for(probe, case, X)
+            probe.predict(core.wrap_container(case, X))
+            bs = core.borderline_scale(case, probe.scores["score"], float(SBS.get_default_threshold(nf, case["p"])))
+            scale = scale if bs is None else bs
+        det = SBS(_mk_score(case["score"]), threshold_scale=scale, level=case["level"], min_segment_length=m,
+                  max_interval_length=case["mx"], growth_factor=case["g"])
+        # ndarray or DataFrame; fitted on the data, on a series of another length, or on an object overwritten in place
+        # afterwards; the fitted detector may have been used on other data with the same index before
+        data, nfit = core.fit_for(det, case, X)
         core.prior_use(det, case, X)
-        y = det.predict(core.wrap_container(case, X))
+        y = det.predict(data)
         T = det.scores
         ivs = [(int(a), int(b)) for a, b in zip(T["start"], T["end"])]
         sc = to_change_score(_mk_score(case["score"])).fit(X)
@@ -262,10 +272,10 @@ def impl_builtin(case):
             vals = sc.evaluate(np.array([(s, k, e) for k in ks])).sum(axis=1)
             for k, v in zip(ks, vals):
                 tab[f"{s},{k},{e}"] = float(v)
-        return {"outcome": "ok", "thr": float(det.threshold_), "ivs": ivs,
+        return {"outcome": "ok", "thr": float(det.threshold_), "ivs": ivs, "scale": scale,
                 "rows": [(int(a), float(b)) for a, b in zip(T["argmax_cpt"], T["score"])],
                 "cps": [int(v) for v in y["ilocs"]], "tab": tab,
-                "default_thr": float(SBS.get_default_threshold(n, case["p"]))}
+                "default_thr": float(SBS.get_default_threshold(nfit, case["p"]))}
     except Exception as ex:
         return {"outcome": "other:" + type(ex).__name__, "msg": str(ex)[:200]}
 
@@ -283,8 +293,8 @@ def oracle_builtin(case, r):
     msg = oracle_sbs(case, rr, score_fn=lambda s, k, e: Fraction(tab[f"{s},{k},{e}"]))
     if msg:
         return msg
-    if case["scale"] is not None and abs(r["thr"] - case["scale"] * r["default_thr"]) > 1e-12 * (1 + abs(r["thr"])):
-        return f"threshold_ {r['thr']} is not threshold_scale x default {case['scale']} x {r['default_thr']}"
+    if r["scale"] is not None and abs(r["thr"] - r["scale"] * r["default_thr"]) > 1e-12 * (1 + abs(r["thr"])):
+        return f"threshold_ {r['thr']} is not threshold_scale x default {r['scale']} x {r['default_thr']}"
     return None
 
 
